@@ -98,7 +98,8 @@ def writeLanes (σ : RegFile) (id : Nat) (vals : List (Nat × Nat)) : RegFile :=
 
 /-- Which register-to-register move an opcode/operand combination is. -/
 inductive MovKind where
-  | plain      -- MOVB / MOVW / MOVQ between general purpose registers: copies the lanes
+  | plain      -- MOVB / MOVW / MOVQ between general purpose registers, or a legacy-SSE full 128-bit move
+               -- (MOVAPS/MOVAPD/MOVUPS/MOVUPD/MOVOA/MOVOU) between XMM registers: copies the lanes of the operand
   | zext32     -- MOVL: copies the low 32 bits and clears bits 32–63
   | vecLow64   -- MOVQ between vector registers: copies the low 64 bits and clears bits 64–127
   | notAMove
@@ -114,6 +115,9 @@ def movKind (opcode : String) (src dst : R) : MovKind :=
        (if dst.mask = S64 ∧ src.mask = S64 then .plain else .notAMove)
      else if idKind dst.id = kindVector ∧ idKind src.id = kindVector ∧ dst.mask = S128 ∧ src.mask = S128 then .vecLow64
      else .notAMove)
+  else if opcode = "MOVAPS" ∨ opcode = "MOVAPD" ∨ opcode = "MOVUPS" ∨ opcode = "MOVUPD" ∨ opcode = "MOVOA" ∨ opcode = "MOVOU" then
+    -- legacy SSE encodings: bits 0-127 are copied, bits 128 and up of the destination are preserved
+    (if idKind dst.id = kindVector ∧ idKind src.id = kindVector ∧ dst.mask = S128 ∧ src.mask = S128 then .plain else .notAMove)
   else .notAMove
 
 /-- Effect of `MOVx src, dst` between registers on the register file:
